@@ -11,7 +11,7 @@ from harness import zones as Z
 ID = "C16"
 BACKENDS = ("py", "rs")          # Date.add / DateTime.add run through helpers.add_duration (is_leap of the backend)
 GEN_MODULES = ()
-MIN_THEOREMS = 24
+MIN_THEOREMS = 20
 US = D.US
 DAY = 86400 * US
 EPOCH_ORD = 719163
@@ -26,17 +26,20 @@ RULE = ("Date ops (dnext/dprev/dfirst/dlast/dnth) on every month shape: 16 patte
         "op that is not a mid-month Date op: month/unit boundary, n at or beyond the count, or zone-aware")
 EXHAUSTIVE = {"quick": False, "thorough": False}
 TRUSTED = [
-    "Model/WeekNav.lean is a hand model of date.py:463-718 and datetime.py:924-1171 (loops, monthcalendar lookups, the three "
-    "different membership tests of _nth_of_month/_quarter/_year, start_of('day')/set/on/add through DateTime.create), tied by this correspondence run",
+    "Model/WeekNav.lean is a hand model of date.py:463-718 and of the repaired datetime.py weekday navigation (loops, monthcalendar "
+    "lookups, the three different membership tests of _nth_of_month/_quarter/_year; DateTime results built by _boundary), tied by this correspondence run",
     "a date is modelled as its proleptic ordinal; Cal.ymd2ord/ord2ymd = CPython's algorithms, proved mutually inverse (Proofs/CalRT.lean)",
-    "DateTime.create/Timezone.convert = DTOps.create/Zone.convertNaive (C02's model); zone tables extracted from tzdata by harness/zones.py",
-    "add(days=n) is modelled as wall clock + n days re-created with fold=1 (the days-only path of helpers.add_duration; C04 models the general path)",
+    "DateTime._boundary = StartOf.edge (C12's model, Model/StartOf.lean); DateTime.create/Timezone.convert = DTOps.create/Zone.convertNaive (C02's model); "
+    "zone tables extracted from tzdata by harness/zones.py",
+    "add(days=n) (keep_time path) is modelled as wall clock + n days re-created with fold=1 (the days-only path of helpers.add_duration; C04 models the general path)",
     "oracle = day-by-day scan with datetime.date/calendar; expected wall time 00:00 (or the kept time) normalised forward by the gap length when skipped (tz tables only)",
 ]
 ASSUMPTIONS = [
     "dates stay inside years 1..9998 (9999 for inputs without forward walking): the OverflowError of datetime at the ends of the range is not part of the model",
     "weekday arguments are 0..6 and n >= 1 (the property's domain); named-zone values lie in 1800..2090 (zone tables expanded to 2100)",
-    "DateTime.next/previous are the repaired one-step versions (fix commit in the repo); on the unrepaired code previous() does not terminate across a skipped calendar day",
+    "a calendar day that does not exist in the zone (skipped entirely: Pacific/Kiritimati 1994-12-31, Pacific/Apia 2011-12-30, Pacific/Kosrae 1844-12-31) has no "
+    "'n-th weekday' reading in the property: the oracle accepts the first existing moment after it, and for nth_of also PendulumException (the unit then holds fewer such days)",
+    "the code is the repaired tree (fix commits: next()/previous() in one step; results built with _boundary); on the unrepaired code the oracle fails (F11)",
 ]
 
 ZONES = ["UTC", "Europe/Paris", "America/New_York", "America/Sao_Paulo", "America/Havana", "America/Santiago",
@@ -290,10 +293,10 @@ def corpus():
     def w(y, m, d, h=0, mi=0):
         return (dt.date(y, m, d).toordinal() - EPOCH_ORD) * DAY + (h * 3600 + mi * 60) * US
     return [
-        ("tfirst", 0, sp, w(2013, 10, 20, 12), 1, -1),          # F11: keeps 01:00 on 2013-10-01
-        ("tnth", 0, sp, w(2013, 10, 1, 12), 1, 4, 6),           # F11: 4th Sunday reported as 2013-10-20
+        ("tfirst", 0, sp, w(2013, 10, 20, 12), 1, -1),          # F11 (repaired): kept 01:00 on 2013-10-01
+        ("tnth", 0, sp, w(2013, 10, 1, 12), 1, 4, 6),           # F11 (repaired): 4th Sunday was reported as 2013-10-20
         ("tnth", 0, sp, w(2013, 10, 1, 12), 1, 3, 6),
-        ("tnext", sp, w(2013, 10, 20, 1), 0, 6, 0),             # F11: start_of('day') of a fold=0 value on the gap day
+        ("tnext", sp, w(2013, 10, 20, 1), 0, 6, 0),             # F11 (repaired): start_of('day') of a fold=0 value on the gap day went to 23:00 the day before
         ("tprev", ki, w(1995, 1, 1, 12), 1, 0, 0),              # looped forever before the next()/previous() repair
         ("tnext", ki, w(1994, 12, 30, 12), 1, 5, 0),
         ("tnext", pa, w(2013, 3, 27, 2, 30), 1, 1, 1),          # keep_time drifted to 03:30 before the repair
@@ -418,6 +421,9 @@ def oracle(op, out, backend):
         return None if out == "err PendulumException" else f"expected err PendulumException got {out}"
     tod = (w % DAY) if keep else 0
     ew = _normalise(name, (e - EPOCH_ORD) * DAY + tod)
+    if kind == "nth" and out == "err PendulumException" and name is not None \
+            and EPOCH_ORD + _normalise(name, (e - EPOCH_ORD) * DAY) // DAY != e:
+        return None      # the n-th such calendar day does not exist in the zone (skipped entirely): see ASSUMPTIONS
     if not out.startswith("ok "):
         return f"expected wall {D.fields(ew)} got {out}"
     rw, roff, rfold = (int(v) for v in out.split()[1:])
@@ -432,48 +438,40 @@ def oracle(op, out, backend):
     return None
 
 
-# ----------------------------------------------------------------------------- known finding F11
+# ----------------------------------------------------------------------------- irregular region (coverage tag only)
 
 def constructed_walls(op):
-    """wall times (day ordinal, time of day, must_be_midnight) the DateTime algorithm builds on its way for this op:
-    the midnight of the instance's day (start_of('day')), the first day of the unit, every occurrence it steps on up to
-    the expected result (one past the unit when nth_of must fail), and the instance's own time of day moved onto the
-    intermediate / result days by set()/on()."""
+    """wall times (day ordinal, time of day) of the days the DateTime algorithm touches for this op: the instance's day,
+    the first day of the unit, every occurrence it steps on up to the expected result (one past the unit when nth_of must
+    fail) and the result day — at 00:00 and, for keep_time, at the instance's time of day. Before the repair (finding F11,
+    now fixed) a skipped wall time among them broke the result; kept to tag the ops that exercise that region."""
     kind, u, n, wd, keep, x = _decode(op)
     zr, w, fold = x
     o = EPOCH_ORD + w // DAY
     tod = w % DAY
     d = dt.date.fromordinal(o)
-    out = []
-    if not keep:
-        out.append((o, 0))
+    out = [(o, 0)]
+    e = expected_date(kind, d, u, n, wd)
     if kind in ("next", "prev"):
-        return out                      # the target day is built once, by add(): normalised as the property expects
+        out.append((e, tod if keep else 0))
+        return out
     lo, hi = unit_range(d, u)
     out.append((lo.toordinal(), 0))
-    e = expected_date(kind, d, u, n, wd)
     if u == 1:
-        out.append((lo.toordinal(), tod))
-        out.append((dt.date(d.year, hi.month, 1).toordinal(), tod))
         out.append((dt.date(d.year, hi.month, 1).toordinal(), 0))
     if u == 2:
-        for mm in (1, 12):
-            out.append((dt.date(d.year, mm, d.day).toordinal(), tod))
-            out.append((dt.date(d.year, mm, d.day).toordinal(), 0))
+        out.append((dt.date(d.year, 12, 1).toordinal(), 0))
     if kind == "nth":
         occ = scan(lo, hi, wd)
         steps = occ[:n] if n <= len(occ) else occ + [occ[-1] + 7]
         out.extend((k, 0) for k in steps)
     if e is not None:
         out.append((e, 0))
-        out.append((e, tod))
     return out
 
 
-def m_midnight_irregular(op, backend, out, viol):
-    """zone-aware DateTime op for which a wall time the algorithm constructs (see constructed_walls: midnights, and the
-    instance's own time of day on intermediate/result days) is skipped in the value's zone (zones.classify_wall finds no
-    instant for it). Repeated wall times are deliberately NOT matched: Props.C16.plain_named_iff shows they are harmless."""
+def touches_skipped(op):
+    """zone-aware DateTime op for which a wall time of constructed_walls(op) is skipped in the value's zone"""
     if op[0][0] != "t":
         return False
     kind, u, n, wd, keep, x = _decode(op)
@@ -486,7 +484,7 @@ def m_midnight_irregular(op, backend, out, viol):
     return False
 
 
-MATCHERS = {"c16_constructed_wall_irregular": m_midnight_irregular}
+MATCHERS = {}      # F11 is repaired: no known finding is left for C16
 
 
 # ----------------------------------------------------------------------------- coverage tags
@@ -498,8 +496,8 @@ def tag(op, out):
         return base + ":" + out[4:]
     if op[0][0] == "t":
         name = D.zname(x[0])
-        if name is not None and m_midnight_irregular(op, None, out, None):
-            return base + ":irregular-midnight"
+        if name is not None and touches_skipped(op):
+            return base + ":skipped-wall-time"
         return base + (":zone" if name else ":naive-or-fixed") + (":keep" if keep else "")
     d = dt.date.fromordinal(x)
     if kind in ("next", "prev"):
